@@ -1144,7 +1144,7 @@ Lemma body_step_stmt : forall lines i line st cp, classify line = KStmt ->
    let (complete_code, consumed) := extract_multiline_expression lines i code in
    if py_stmt_ok pp complete_code
    then POk (set_current st (with_execute cp (TPyStmt complete_code)), i + consumed)
-   else dsyn "stmt:python-syntax" (i + py_stmt_errline pp complete_code)).
+   else dsyn "stmt:python-syntax" (i + Nat.min (py_stmt_errline pp complete_code) (consumed - 1))).
 Proof. intros lines i line st cp H. chain H. reflexivity. Qed.
 
 Lemma body_step_jump : forall lines i line st cp, classify line = KJump ->
